@@ -49,8 +49,12 @@ def run_check(ctx, pid, prop_mods, marks, text, design_ref):
                 failures.append({"case": r["line"], "check": "oracle", "detail": {"text": r["text"], "what": item},
                                  "guards": guards, "model_agrees": not r["dis"],
                                  "replay_how": "echo '<input>' | /verif/harness/target/debug/oq3-run tree"})
+    sema_cov = {}
+    if pid == "C12":
+        sema_cov = sema_ranges(ctx, failures)
     failures.sort(key=lambda f: len(f["case"]))
     C.decide(ctx, failures, C.load_findings(pid))
+    ctx.coverage.update(sema_cov)
     ctx.coverage.update({
         "evaluations": len(texts), "distinct_nontrivial": nontriv,
         "rule": "same text population as C01 (random rich-alphabet texts, well-formed and malformed lexeme sequences, generated and mutated programs), both entry points; " + text + "; non-trivial = parse returned and the oracle held",
@@ -63,6 +67,49 @@ def run_check(ctx, pid, prop_mods, marks, text, design_ref):
         "rowan (green tree, text_range) is modelled as a rose tree with ranges derived from leaf lengths; that the real ranges tile is checked by the oracle on every case",
         "escape-sequence diagnostics of validate_literal (oq3_lexer::unescape) are not modelled; their spans are checked on the implementation only"],
         assumptions=["texts < 2^32 bytes"])
+
+
+RENAMES = [("a", "α"), ("b", "bé"), ("c", "ℂ"), ("q", "qµ"), ("r", "ρ"), ("n", "ñ"), ("m", "μ")]
+
+
+def sema_ranges(ctx, failures):
+    """C12, semantic clause: every semantic diagnostic's range is the range of a node of the file's tree
+    (hence start <= end <= len on character boundaries)."""
+    from . import gen_prog as GP
+    from . import semapipe as SP
+    q = ctx.tier == "quick"
+    progs = GP.gen_programs(ctx.seed + 11, 3000 if q else 40000)
+    rnd = random.Random(ctx.seed + 12)
+    extra = []
+    for p in progs[: len(progs) // 2]:
+        # non-ASCII identifiers and string contents
+        old, new = rnd.choice(RENAMES)
+        extra.append(re.sub(r"(?<![A-Za-z0-9_$.\"])" + old + r"(?![A-Za-z0-9_\"(])", new, p))
+    progs = ["qubit q;\nqubit q;", "bit b; bit b;", "const int n = 4; int[n] n;", "gate s q {}\ninclude \"stdgates.inc\";",
+             "int é = 1; int é = 2;", "float[64] π = 1.0;", "x = y;", "qubit q; h q;", "int ñ; ñ = ñq;"] + progs + extra
+    recs, stats = SP.run(ctx, progs, tag="c12sema")
+    trees = C.run_impl(ctx, "tree", [G.enc(t) for t in progs], tag="c12sema-tree")
+    nerr, nprog = 0, 0
+    kinds = {}
+    for r, t in zip(recs, trees):
+        res = SP.parse_i6(r["impl"])
+        if res is None or not res.get("errors"):
+            continue
+        f = PL.fields(t)
+        ranges = {(int(a), int(b)) for a, b in re.findall(r"\((?:[A-Z_0-9]+) (\d+) (\d+)", f.get("tree", ""))}
+        nprog += 1
+        for e in res["errors"].split(","):
+            kind, _, rg = e.partition("@")
+            a, _, b = rg.partition("-")
+            nerr += 1
+            kinds[kind] = kinds.get(kind, 0) + 1
+            if (int(a), int(b)) not in ranges:
+                failures.append({"case": G.enc(r["text"]), "check": "sema_range_is_node_range",
+                                 "detail": {"text": r["text"], "error": e, "what": "semantic diagnostic range is not the range of any node of the tree"},
+                                 "guards": set(), "model_agrees": r["agree"] is not False,
+                                 "replay_how": "echo '<input>' | /verif/harness/target/debug/oq3-run sema   (and `tree` for the node ranges)"})
+    return {"semantic_programs": len(progs), "semantic_programs_with_errors": nprog, "semantic_diagnostics_checked": nerr,
+            "semantic_diagnostic_kinds": kinds, "sema_correspondence": dict(stats)}
 
 
 C12_EXTRA = ["def f(mutable № [int, 3] x) {}", "def f(readonly № [int,3] x) { }", "x = \"a\\qb\";", "π = \"\\u{zz}\";"]
